@@ -153,9 +153,11 @@ type implResult struct {
 	obs      []int
 }
 
-// implParse: observable of ExprParser.Parse(NewExprLexer(src))
-func implParse(src string) implResult {
-	p := actionlint.NewExprParser()
+// implParse: observable of ExprParser.Parse(NewExprLexer(src)) on a fresh parser
+func implParse(src string) implResult { return implParseWith(actionlint.NewExprParser(), src) }
+
+// implParseWith: the same on a parser value that has parsed other texts before
+func implParseWith(p *actionlint.ExprParser, src string) implResult {
 	n, err := p.Parse(actionlint.NewExprLexer(src))
 	if err == nil {
 		t := serNode(n)
